@@ -2111,7 +2111,13 @@ def diff(a, n=1, axis=_NO_AXIS, **kw):
             e = shape[ax]
             ne = builtins.max(e - nn, 0) if isinstance(e, int) else z3.simplify(z3.If(zint(e) >= nn, zint(e) - nn, 0))
             return tuple(ne if k == ax else s_ for k, s_ in enumerate(shape))
-        return _along_axis("diff", a, axis, dict(n=nn) if nn != 1 else {}, rule)
+        # NumPy's n-th difference IS the first difference applied n times (its own definition), so np.diff(a, n=2) and
+        # np.diff(np.diff(a)) are the same term here: a refactoring between the two is not a change of behaviour
+        nn_total, nn = nn, 1
+        r = a
+        for _ in range(nn_total):
+            r = _along_axis("diff", r, axis, {}, rule)
+        return r
     axis = -1
     if a.ndim == 1 and n == 1 and a.elem in ("int", "real"):
         f = a.snapshot()
